@@ -65,13 +65,13 @@ def send_ping_reset_timer(rep):
     pend = [c for c in clock.getDelayedCalls() if c.active()]
     msg.append(f"after _send_ping_reset_timer(): pending calls={len(pend)}, timer due at "
                f"{t.getTime() if t is not None else None}, now + ping_interval = {base + interval}")
-    if name.endswith("deadline-within-one-interval"):
+    if "deadline-within-one-interval" in name:
         bad = t is None or t.getTime() > base + interval
         msg.append("required: deadline <= now + ping_interval")
-    elif name.endswith("not-before-one-interval"):
+    elif "not-before-one-interval" in name:
         bad = t is None or t.getTime() < base + interval
         msg.append("required: deadline >= now + ping_interval")
-    elif name.endswith("exactly-one-timer-pending"):
+    elif "exactly-one-timer-pending" in name:
         bad = t is None or not t.active() or len(pend) != 1
         msg.append("required: exactly one pending interval timer")
     else:
@@ -103,10 +103,10 @@ def two_answered_pings_then_silence(rep):
     dropped_at = clock.seconds()
     msg.append(f"silent peer dropped at t={dropped_at}; last answered ping at t={t_last}; "
                f"3 * ping_interval = {3 * interval}")
-    if name.endswith("under-three-ping-intervals"):
+    if "under-three-ping-intervals" in name:
         bad = not (conn.disconnect.call_count == 1 and dropped_at < t_last + 3 * interval)
         msg.append("required: dropped before last_pong + 3 * ping_interval")
-    elif name.endswith("dropped-on-second-expiry"):
+    elif "dropped-on-second-expiry" in name:
         bad = conn.disconnect.call_count != 1
         msg.append("required: disconnect() exactly once after the second expiry")
     else:
